@@ -859,6 +859,13 @@ pub fn generate(tier: &str, rng: &mut Rng) -> Vec<String> {
             out.push(format!("e2e {} 9 {} {} {} {} {}", mode, hex(msg.as_bytes()), hex(&det), typed_tok(&big_md), typed_tok(&big_md[..1].to_vec()), typed_tok(&big_md[1..].to_vec())));
         }
     }
+    // end to end with binary values of the lengths where encoders change strategy (seed C08j)
+    for (i, n) in [255usize, 256, 511, 512, 767, 768, 769, 800, 1000, 1023, 1024, 1025, 1365, 1366, 2047, 2048, 3071, 3072, 3073, 4095, 4096, 4097].iter().enumerate() {
+        let v: Vec<u8> = (0..*n).map(|j| (j * 7 + i) as u8).collect();
+        let md: Typed = vec![(true, b"len-bin".to_vec(), v.clone()), (false, b"x-len".to_vec(), vec![b'a'; *n])];
+        let mode = ["ok", "err", "sserr", "umix"][i % 4];
+        out.push(format!("e2e {} 9 {} x {} {} {}", mode, hex(b"m"), typed_tok(&md), typed_tok(&md), typed_tok(&md)));
+    }
     // ---- the entry API as operation sequences; every constructor and comparison; Status::from_error
     entry_api::generate(thorough, rng, &mut out);
     typed_api::generate(thorough, rng, &mut out);
